@@ -1327,7 +1327,11 @@ CHECK_REPLAY_WINDOW:
 #ifdef USE_DTLS
         if (ACTV_VER(ssl, v_dtls_any))
         {
-            if (ssl->hsState != SSL_HS_FINISHED)
+            if (ssl->hsState != SSL_HS_FINISHED
+#  ifdef USE_STATELESS_SESSION_TICKETS
+                && !DTLS_CCS_SIGNALS_TICKET_RESUMPTION(ssl)
+#  endif
+                )
             {
                 /* Possible to get the changeCipherSpec message out of order */
                 psTraceIntInfo("Got out of order CCS: state %d\n", ssl->hsState);
